@@ -73,14 +73,15 @@ def cached(key, fn):
 # ---------------------------------------------------------------------------
 # (a) white space at token boundaries
 
-def place(c, tokens, lead_trail):
+def place(c, tokens, lead_trail, ws=None):
     """choose a white-space placement; returns the rendered string"""
+    ws = ws or WS
     lt = [LX.lex_one(t) for t in tokens]
     out = []
     for i, t in enumerate(tokens):
         out.append(t)
         if i + 1 < len(tokens):
-            out.append(c.pick(WS[1:] if LX.merges(lt[i], lt[i + 1]) else WS))
+            out.append(c.pick(ws[1:] if LX.merges(lt[i], lt[i + 1]) else ws))
     lead, trail = c.pick(lead_trail)
     return lead + "".join(out) + trail
 
@@ -159,7 +160,7 @@ def drv_ws_grammar(c, ctx, col):
         W.reference(tokens, include_intercept=True, avail=None)
     except (W.Reject, W.Unspec):
         raise Skip()
-    variant = place(c, tokens, LT_SHORT if ctx.get("lead_trail", True) else [("", "")])
+    variant = place(c, tokens, LT_SHORT if ctx.get("lead_trail", True) else [("", "")], ctx.get("ws"))
     check_ws(col, "ws-grammar", tokens, variant, True, None)
     col.sample({"tokens": tokens, "variant": variant})
 
@@ -188,7 +189,7 @@ def drv_names(c, ctx, col):
     from formulaic.parser.types import Factor
 
     name = "".join(c.seq(NAME_CHARS, ctx["L"], 1))
-    form = c.pick(NAME_FORMS)
+    form = c.pick(NAME_FORMS if len(name) <= 3 else ctx["forms_len4"])
     fname, tmpl, lookups, pyexpr, expect = form
     if "\\" in name:
         col.count("unspecified:back-slash-in-name")
@@ -266,7 +267,7 @@ PY_EXPRS = [
     ("f(1e3, 0x10)", True), ("f(x, \"é\")", True), ("f(\"a\\\"b\")", True), ("f(x)(y)", True), ("f(f\"{x}\")", True),
     ("x if y else z", False), ("x + y", False), ("(x + y) * 2", False), ("x[0] + y.z", False), ("[t for t in x]", False),
     ("{k: v for k, v in x}", False), ("not x", False), ("x if y else \"a}b\"", False), ("`a b` + `c`", False),
-    ("{1: 2}[x]", False), ("lambda: x", False),
+    ("{1: 2}[x]", False), ("lambda: x", False), ("exp(`x`)", True), ("f(`a`, max, b)", True), ("`x` + exp(y)", False),
 ]
 OPCH = set("+-*/%@&|^~<>=!.:")
 
@@ -321,6 +322,7 @@ def needs_space(l, r, had_space):
 class PyCase:
     def __init__(self, expr, bare_ok):
         self.expr, self.bare_ok = expr, bare_ok
+        self._variants = {}
         self.toks, self.kinds, gaps = py_tokens(expr)
         self.fixed = [needs_space(self.toks[i], self.toks[i + 1], gaps[i]) for i in range(len(gaps))]
         depth, self.depth_at = 0, []   # bracket depth at the boundary after token i
@@ -380,13 +382,33 @@ class PyCase:
             out.append(t)
         return out if changed else None
 
+    def variant_case(self, kind, form):
+        """the same expression with the other quote style / with redundant parentheses, as a PyCase of its own"""
+        k = (kind, form)
+        if k not in self._variants:
+            if kind == "quotes":
+                toks = self.swapped()
+            elif form == "brace":
+                toks = ["("] + self.toks + [")"]
+            else:
+                toks = wrap_first_argument(self)
+            if toks is None:
+                self._variants[k] = None
+            else:
+                src = "".join(t + (" " if i + 1 < len(toks) and needs_space(t, toks[i + 1], True) else "") for i, t in enumerate(toks))
+                vc = PyCase(src, self.bare_ok)
+                if vc.ast != self.ast:
+                    raise AssertionError("rewriting %r as %r changes its meaning" % (self.expr, src))
+                self._variants[k] = vc
+        return self._variants[k]
+
     def sig(self, form, symptom):
         if self.feats_common:
             return "python-fragment:" + self.feats_common[0]
         if form == "brace" and self.top_brace:
             return "python-fragment:brace-directly-inside-brace-fragment"
-        if self.n_backticked >= 2 and symptom != "variants-differ":
-            return "python-fragment:several-backticked-names:" + symptom
+        if self.n_backticked >= 1 and symptom == "not-ast-equivalent":
+            return "python-fragment:backticked-names-not-restored-faithfully"
         return "python-fragment:" + symptom
 
 
@@ -419,49 +441,35 @@ def drv_python(c, ctx, col):
     form = c.pick(["brace", "bare"])
     if form == "bare" and not case.bare_ok:
         raise Skip()
-    free = case.free(form)
-    nb = len(free) + (2 if form == "brace" else 0)   # brace form: also just inside the braces
     kind = c.pick(["spacing", "quotes", "parens"])
-    toks, lead, trail, pre, post = None, "", "", "", ""
+    # the token list that is re-spaced: the expression itself, its quote-swapped or its parenthesised rewriting
     if kind == "spacing":
-        if nb <= ctx["subset_bound"]:
-            chosen = [j for j in range(nb) if c.flag()]
-        else:
-            i = c.upto(nb)           # 0 = none, else boundary i-1 (+ optionally a second one)
-            chosen = []
-            if i > 0:
-                j = i + c.upto(nb - i)
-                chosen = sorted({i - 1, j - 1})
-            elif c.flag():
-                chosen = list(range(nb))  # and the all-boundaries rendering
+        shown = case
     elif kind == "quotes":
-        toks = case.swapped()
-        if toks is None:
-            raise Skip()
-        chosen = list(range(nb)) if c.flag() else []
+        shown = case.variant_case("quotes", form)
     else:
+        shown = case.variant_case("parens", form)
+    if shown is None:
+        raise Skip()
+    free = shown.free(form)
+    nb = len(free) + (2 if form == "brace" else 0)   # brace form: also just inside the braces
+    if kind != "spacing":
         chosen = list(range(nb)) if c.flag() else []
-        if form == "brace":
-            pre, post = "(", ")"       # {(E)}
-        else:
-            # bare: wrap the first argument / subscript of the outermost trailer in parentheses, if it is a plain one
-            toks = wrap_first_argument(case)
-            if toks is None:
-                raise Skip()
-    spaces = {free[j] for j in chosen if j < len(free)}
-    if toks is not None and len(toks) != len(case.toks):
-        body = " ".join(toks) if chosen else "".join(
-            t + (" " if i + 1 < len(toks) and needs_space(t, toks[i + 1], True) else "") for i, t in enumerate(toks))
+    elif nb <= ctx["subset_bound"]:
+        chosen = [j for j in range(nb) if c.flag()]
     else:
-        body = case.render(spaces, toks)
+        i = c.upto(nb)           # 0 = none (or all), else boundary i-1 and optionally a second one
+        chosen = []
+        if i > 0:
+            chosen = sorted({i - 1, i - 1 + c.upto(nb - i)})
+        elif c.flag():
+            chosen = list(range(nb))
+    body = shown.render({free[j] for j in chosen if j < len(free)})
     if form == "brace":
-        lead = " " if len(free) in chosen else ""
-        trail = " " if len(free) + 1 in chosen else ""
-        variant = "{" + lead + pre + body + post + trail + "}"
+        variant = "{" + (" " if len(free) in chosen else "") + body + (" " if len(free) + 1 in chosen else "") + "}"
         base = "{" + case.render(set()) + "}"
     else:
-        variant = body
-        base = case.render(set())
+        variant, base = body, case.render(set())
     g0 = cached(("py", idx, form), lambda: factor_of(base))
     g1 = g0 if variant == base else factor_of(variant)
     if variant != base:
@@ -470,6 +478,11 @@ def drv_python(c, ctx, col):
     detail = lambda **k: dict({"expression": case.expr, "variant": variant, "baseline": base, "got_variant": g1, "got_baseline": g0,
                                "repro": "DefaultFormulaParser(include_intercept=False).get_terms(%r)" % variant}, **k)
     col.sample({"expression": case.expr, "variant": variant})
+    base_ok = g0[0] == "OK" and LX.python_ast(g0[1]) == case.ast
+    if not base_ok and variant != base:
+        # the expression already fails in its plainest rendering: that is reported once (on the baseline), not per variant
+        col.count("variant-of-an-already-failing-baseline")
+        return
     if g1[0] != "OK":
         col.violation(key, detail(), sig=case.sig(form, "valid-fragment-" + {"REJECT": "rejected", "ESCAPE": "raises", "SHAPE": "not-one-factor"}[g1[0]]))
         return
@@ -540,14 +553,15 @@ def drv_spans(c, ctx, col):
             if not (isinstance(st, int) and isinstance(en, int) and 0 <= st <= en < len(s)):
                 col.violation(key, info, sig="span-outside-source")
                 break
+            stale = isinstance(st, int) and s[st:st + 2] in ("{}", "``", "%%") and bool(t.token)
             if st <= prev:
-                col.violation(key, info, sig="spans-overlap-or-out-of-order")
+                col.violation(key, info, sig="span-starts-at-preceding-empty-quotes" if stale else "spans-overlap-or-out-of-order")
                 break
             prev = en
             piece = s[st:en + 1]
             if piece[0] in "`{%":  # a quoted token: the span starts at the opening delimiter
                 if t.token not in piece:
-                    col.violation(key, info, sig="quoted-span-does-not-contain-text")
+                    col.violation(key, info, sig="span-starts-at-preceding-empty-quotes" if stale else "quoted-span-does-not-contain-text")
                     break
             elif "".join(piece.split()) != "".join(t.token.split()):
                 col.violation(key, info, sig="span-does-not-delimit-text")
@@ -577,12 +591,9 @@ def selftest():
         for spaces in (set(), set(range(len(case.toks)))):
             if LX.python_ast(case.render(spaces)) != case.ast:
                 raise AssertionError("re-spacing changes the Python meaning of %r: %r" % (case.expr, case.render(spaces)))
-        sw = case.swapped()
-        if sw is not None and LX.python_ast(case.render(set(), sw)) != case.ast:
-            raise AssertionError("quote swap changes the meaning of %r" % case.expr)
-        wr = wrap_first_argument(case) if case.bare_ok else None
-        if wr is not None and LX.python_ast(" ".join(wr)) != case.ast:
-            raise AssertionError("parenthesising changes the meaning of %r: %r" % (case.expr, " ".join(wr)))
+        for form in ("brace", "bare") if case.bare_ok else ("brace",):
+            for kind in ("quotes", "parens"):
+                case.variant_case(kind, form)  # raises if the rewriting is not equivalent
     a, b, star, par, name = (LX.lex_one(t) for t in ("a", "b", "*", "(", "`x y`"))
     assert LX.merges(a, b) and LX.merges(star, star) and LX.merges(a, par) and not LX.merges(a, star) and not LX.merges(star, par)
     assert not LX.merges(star, name) and not LX.merges(name, star)
@@ -600,10 +611,12 @@ def subchecks(tier, seed):
             bounds={"alphabet": SIGMA_Q, "max_tokens": 4, "white_space": ["", " ", "\\t\\n"]}),
         Sub("ws-grammar", drv_ws_grammar, {"k": 1, "kmin": 0, "leaves": leaves_all}, shard_depth=3,
             bounds={"max_binary_operators": 1, "leaves": leaves_all, "shapes": ["T", "y ~ T", "T | b"]}),
-        Sub("ws-grammar-2", drv_ws_grammar, {"k": 2, "kmin": 2, "leaves": ["`x y`", "f(a)"] if quick else leaves_all[:5]}, shard_depth=4,
-            bounds={"binary_operators": 2, "leaves": ["`x y`", "f(a)"] if quick else leaves_all[:5]}),
-        Sub("names", drv_names, {"L": 3 if quick else 4}, shard_depth=3,
-            bounds={"alphabet": NAME_CHARS, "max_length": 3 if quick else 4, "forms": [f[1] for f in NAME_FORMS]}),
+        Sub("ws-grammar-2", drv_ws_grammar, {"k": 2, "kmin": 2, "leaves": ["`x y`", "f(a)"] if quick else leaves_all[:5], "ws": WS[:2],
+                                             "lead_trail": False}, shard_depth=4,
+            bounds={"binary_operators": 2, "leaves": ["`x y`", "f(a)"] if quick else leaves_all[:5], "white_space": ["", " "]}),
+        Sub("names", drv_names, {"L": 3 if quick else 4, "forms_len4": [f for f in NAME_FORMS if f[0] in ("alone", "star", "call", "brace-twice")]},
+            shard_depth=3, bounds={"alphabet": NAME_CHARS, "max_length": 3 if quick else 4, "forms": [f[1] for f in NAME_FORMS],
+                                   "forms_at_length_4": ["`%s`", "`%s`*zz", "double(`%s`)", "{`%s` * `%s`}"]}),
         Sub("python", drv_python, {"subset_bound": 8 if quick else 10}, shard_depth=2,
             bounds={"expressions": len(PY_EXPRS), "all_subsets_of_boundaries_up_to": 8 if quick else 10,
                     "beyond": "all single and pairwise insertions, none, all"}),
@@ -619,8 +632,8 @@ def subchecks(tier, seed):
     else:
         subs.append(Sub("ws-tokens-5", drv_ws_tokens, {"sigma": SIGMA_Q, "L": 5, "Lmin": 5, "both_icpt_upto": 0}, shard_depth=3,
                         bounds={"alphabet": SIGMA_Q, "tokens": 5}))
-        subs.append(Sub("ws-grammar-3", drv_ws_grammar, {"k": 3, "kmin": 3, "leaves": ["a"], "lead_trail": False}, shard_depth=4,
-                        bounds={"binary_operators": 3, "leaves": ["a"], "max_tokens": 9}))
+        subs.append(Sub("ws-grammar-3", drv_ws_grammar, {"k": 3, "kmin": 3, "leaves": ["a"], "lead_trail": False, "ws": WS[:2]}, shard_depth=4,
+                        bounds={"binary_operators": 3, "leaves": ["a"], "max_tokens": 9, "white_space": ["", " "]}))
     return subs
 
 
